@@ -128,6 +128,7 @@ pub struct FuseDev {
     _session: ManuallyDrop<FuseSession>,
     chan: ManuallyDrop<FuseChannel>,
     rbuf: Vec<u8>,
+    memfd: Option<File>,
 }
 
 fn set_bufs(fd: RawFd, sz: i32) {
@@ -159,6 +160,7 @@ impl FuseDev {
             _session: ManuallyDrop::new(session),
             chan: ManuallyDrop::new(chan),
             rbuf: vec![0u8; (2 << 20) + 8192],
+            memfd: None,
         }
     }
 
@@ -198,6 +200,45 @@ impl FuseDev {
             Err(e) => (Err("panic".into()), Some(panic_msg(e))),
         };
         Exec { ret, panic, records: self.drain(), problems: Vec::new(), area: Vec::new() }
+    }
+
+    /// Like `via_sep`, but the device fd is an O_APPEND memfd (pwrite works, every write call
+    /// appends): the single element of `records` is the concatenation of everything written.
+    pub fn via_file<H: Serve>(&mut self, h: &H, req: &[u8], cap: usize) -> Exec {
+        use std::io::{Read, Seek, SeekFrom};
+        if self.memfd.is_none() {
+            let fd = unsafe { libc::memfd_create(b"fbrv-dev\0".as_ptr() as *const libc::c_char, 0) };
+            assert!(fd >= 0);
+            unsafe { libc::fcntl(fd, libc::F_SETFL, libc::O_APPEND) };
+            self.memfd = Some(unsafe { File::from_raw_fd(fd) });
+        }
+        let f = self.memfd.as_mut().unwrap();
+        f.set_len(0).unwrap();
+        let fd = f.as_raw_fd();
+        let mut rq = vec![CANARY; PAD + req.len() + PAD];
+        rq[PAD..PAD + req.len()].copy_from_slice(req);
+        let mut wb = vec![CANARY; PAD + cap + PAD];
+        let res = {
+            let (rq_mid, wb_mid) = (&mut rq[PAD..PAD + req.len()], &mut wb[PAD..PAD + cap]);
+            subject(|| {
+                let r = Reader::<()>::from_fuse_buffer(FuseBuf::new(rq_mid)).expect("reader");
+                let w = FuseDevWriter::<()>::new(fd, wb_mid).expect("writer");
+                h.serve(r, Writer::FuseDev(w), None)
+            })
+        };
+        let (ret, panic) = match res {
+            Ok(r) => (r, None),
+            Err(e) => (Err("panic".into()), Some(panic_msg(e))),
+        };
+        let mut problems = Vec::new();
+        if rq[..PAD].iter().chain(rq[PAD + req.len()..].iter()).any(|b| *b != CANARY) || wb[..PAD].iter().chain(wb[PAD + cap..].iter()).any(|b| *b != CANARY) {
+            problems.push("canary around a buffer damaged".to_string());
+        }
+        let mut content = Vec::new();
+        let f = self.memfd.as_mut().unwrap();
+        f.seek(SeekFrom::Start(0)).unwrap();
+        f.read_to_end(&mut content).unwrap();
+        Exec { ret, panic, records: if content.is_empty() { vec![] } else { vec![content] }, problems, area: Vec::new() }
     }
 
     /// Separate request and reply buffers with canaries around both; reply capacity `cap`.
